@@ -607,7 +607,8 @@ impl Stream {
             "{{\"id\":{},\"state\":\"{}\",\"is_counted\":{},\"ref_count\":{},\"send_window\":{},\"send_available\":{},\
              \"requested\":{},\"buffered\":{},\"pending_send_empty\":{},\"is_pending_send\":{},\"is_pending_open\":{},\
              \"is_pending_push\":{},\"is_pending_accept\":{},\"recv_window\":{},\"recv_available\":{},\
-             \"in_flight_recv\":{},\"is_recv\":{},\"pending_recv_empty\":{},\"reset_at\":{},\"is_pending_window_update\":{}}}",
+             \"in_flight_recv\":{},\"is_recv\":{},\"pending_recv_empty\":{},\"reset_at\":{},\"is_pending_window_update\":{},\
+             \"is_pending_send_capacity\":{}}}",
             u32::from(self.id),
             format!("{:?}", self.state).replace('"', "'").replace('\\', "/"),
             self.is_counted,
@@ -628,6 +629,7 @@ impl Stream {
             self.pending_recv.is_empty(),
             self.reset_at.is_some(),
             self.is_pending_window_update,
+            self.is_pending_send_capacity,
         )
     }
 }
